@@ -574,8 +574,23 @@ def _closures(body, spec, ctr, dropped, used):
                     used.add(('closure', k, 'spec'))
                 elif spec:
                     # by position: argument of the n-th call of a method
-                    if pv >= 0 and body[pv].text == '(':
-                        mi = prev_sig(body, pv - 1)
+                    # the call this closure is an argument of: the innermost unmatched `(` before it
+                    op, depth = None, 0
+                    for q in range(i - 1, -1, -1):
+                        tq = body[q]
+                        if tq.kind != 'punct':
+                            continue
+                        if tq.text in (')', ']', '}'):
+                            depth += 1
+                        elif tq.text in ('(', '[', '{'):
+                            if depth == 0:
+                                op = q if tq.text == '(' else None
+                                break
+                            depth -= 1
+                        elif tq.text == ';' and depth == 0:
+                            break
+                    if op is not None:
+                        mi = prev_sig(body, op - 1)
                         if mi >= 0 and body[mi].kind == 'ident':
                             meth = body[mi].text
                             nth = ctr.__dict__.setdefault('meth', {}).get(meth, 0)
@@ -1009,6 +1024,17 @@ def extract_fn(item, file, impl_key, spec, twin_false=False):
     b = _operator_calls(b, dropped)
     cctr = LoopCounter()
     b = _closures(b, spec, cctr, dropped, used)
+    if spec:
+        # positional closure contracts: more closure arguments of that method than the overlay knows means the ordinals may
+        # have shifted - a lost anchor, not something to guess about
+        want = {}
+        for key in spec.sections:
+            if isinstance(key, tuple) and key[0] == 'closure@':
+                want[key[1]] = max(want.get(key[1], 0), key[2] + 1)
+        for meth, n in want.items():
+            if getattr(cctr, 'meth', {}).get(meth, 0) > n:
+                raise Unsupported('%s: %d closure arguments of `%s(..)`, the overlay has contracts for %d (ordinals may have shifted)'
+                                  % (item.name, cctr.meth[meth], meth, n))
     ctr = LoopCounter()
     b = _desugar(b, spec, ctr, dropped, used)
     if spec:
